@@ -147,4 +147,52 @@ theorem seqRun_safe (k s : Nat) (b : Buf) (n : Nat) (hs : s ≤ 65535) :
     cur_auto
     exact ih _ (by omega)
 
+/-- invariant of the reassembly bookkeeping: the receive counter stays in u16 and the reassembly buffer below 2^24 -/
+def HsCtx.Ok (c : HsCtx) : Prop := c.recvSeq ≤ 65535 ∧ c.incLen < 16777216
+
+theorem acceptSeq_le (isClient : Bool) (recv : Nat) (postHvr : Bool) (seq : Nat) :
+    (acceptSeq isClient recv postHvr seq).2 ≤ max recv seq := by
+  unfold acceptSeq
+  repeat' split
+  all_goals (dsimp only; omega)
+
+theorem reassemble_safe {E : Nat → Prop} (c : HsCtx) (m : HsMsg) {Q b n}
+    (hc : c.Ok) (htot : m.total < 16777216) (hE : ∀ k, E k)
+    (h : ∀ r n', r.2.Ok → Q r b n') : safe E (reassemble c m) Q b n := by
+  unfold reassemble seqAdvance
+  obtain ⟨h1, h2⟩ := hc
+  cur_auto
+  all_goals (first | exact hE _ | skip)
+  all_goals (apply h; unfold HsCtx.Ok; dsimp only; omega)
+
+attribute [local irreducible] reassemble
+
+theorem onMessage_safe {E : Nat → Prop} (isClient : Bool) (c : HsCtx) (m : HsMsg) {Q b n}
+    (hc : c.Ok) (hseq : m.seq ≤ 65535) (htot : m.total < 16777216) (hE : ∀ k, E k)
+    (h : ∀ r n', r.2.Ok → Q r b n') : safe E (onMessage isClient c m) Q b n := by
+  unfold onMessage
+  have ha := acceptSeq_le isClient c.recvSeq c.postHvr m.seq
+  obtain ⟨h1, h2⟩ := hc
+  dsimp only
+  apply safe_ite <;> intro hacc
+  · apply safe_pure; apply h; exact ⟨h1, h2⟩
+  · apply reassemble_safe _ _ _ htot hE h
+    unfold HsCtx.Ok; dsimp only
+    exact ⟨by omega, h2⟩
+
+attribute [local irreducible] onMessage
+
+theorem onMessages_safe (isClient : Bool) (ms : List HsMsg) (c : HsCtx) (b : Buf) (n : Nat) (hc : c.Ok)
+    (hm : ∀ m ∈ ms, m.seq ≤ 65535 ∧ m.total < 16777216) :
+    safe (fun _ => True) (onMessages isClient c ms) (fun c' _ _ => c'.Ok) b n := by
+  induction ms generalizing c n with
+  | nil => unfold onMessages; exact safe_pure hc
+  | cons m rest ih =>
+    unfold onMessages
+    apply safe_bind
+    have hmm := hm m (by simp)
+    apply onMessage_safe _ _ _ hc hmm.1 hmm.2 (fun _ => trivial)
+    intro r n' hr
+    exact ih r.2 n' hr (fun m' hm' => hm m' (by simp [hm']))
+
 end RtcModel.C07.Dtls
